@@ -115,6 +115,8 @@ package common
 // strconv.Itoa is a deterministic function of its argument (same declared function as in gpusharingconfigmap)
 //@ func strconv.Itoa
 //@   props C11
+//@   trusted
+//@   note library function (no body in the loaded program): deterministic function of its argument
 //@   pure
 //@   ensures result == gpusharingconfigmap.itoa(arg0)
 //@ end
